@@ -352,7 +352,7 @@ SPECS['C17'] = {
     'outside': ['names longer than 3 characters for engine A (K5 covers the pattern for all lengths)',
                 'signed-integer channel data and non-uniform index spacing in the mode are decided with C13/C08 (numpy contract stub)'],
     'selftests': [],
-    'obligations': _pair('c17', 'context', (60, 120), 'initial flag x nesting 1..3 x exception at any level x decorator form', ['high_compatibility_mode'])
+    'obligations': _pair('c17', 'context', (60, 120), 'initial flag x nesting 1..3 x exception at any level x 5 forms (with-blocks; decorated outermost; every level decorated = decorated calls decorated; decorated alternating with with-blocks; twice in a row)', ['high_compatibility_mode'])
       + _pair('c17', 'name_rule', (120, 300), 'symbolic str, len<=3 (any code point), mode on/off', ['validate_string'])
       + _pair('c17', 'name_sites', (120, 120), '3 entry points x 10 example names (incl. trailing newline, NUL, tab) x mode (finite)', ['EFLRItem.__init__', 'StorageUnitLabel.__init__', 'FileHeaderItem.__init__'])
       + _pair('c17', 'soft_enum', (60, 120), '4 enumerations x member/value/non-member x mode', ['ValidatorEnum.make_converter'])
